@@ -1405,6 +1405,9 @@ func FunExpr(query *Query, current Map, expr *sqlparser.FuncExpr, opts ...ExprOp
 				err = e
 				return e
 			}
+			// the awaited expression may itself have started asynchronous
+			// work (AWAIT(ASYNC.f(x))): it has to finish before its slot is read
+			query.wg.Wait()
 			rs = slice[0]
 			return nil
 		})
